@@ -147,6 +147,10 @@ def enum(tier, shard, nshards):
                                 (decays if kinds[-1] == 'P' else rises).append(trail)
                             yield {'n': n, 'peaks': peaks, 'troughs': troughs, 'rises': rises, 'decays': decays,
                                    'variant': count + len(rises) + (lead or 0) + (trail or 0)}
+                            if lead is None and trail is None and len(rises) + len(decays) >= 3:
+                                # midpoints supplied for some flanks only (e.g. kept for the bursting cycles): "when supplied"
+                                yield {'n': n, 'peaks': peaks, 'troughs': troughs, 'rises': rises[::2], 'decays': decays[1::2], 'variant': count}
+                                yield {'n': n, 'peaks': peaks, 'troughs': troughs, 'rises': rises[1:], 'decays': decays[:-1], 'variant': count}
 
 
 def check_pipeline(case, rec):
@@ -172,8 +176,10 @@ def check_pipeline(case, rec):
     except Exception:
         raise Discard('find_zerox raised (C03 territory)')
     mode = case['mids']
-    R = list(map(int, rises)) if mode in ('both', 'rises') else None
-    D = list(map(int, decays)) if mode in ('both', 'decays') else None
+    R = list(map(int, rises)) if mode in ('both', 'rises', 'some') else None
+    D = list(map(int, decays)) if mode in ('both', 'decays', 'some') else None
+    if mode == 'some':
+        R, D = R[::2], D[1::3]        # midpoints kept for some flanks only
     rec.label(*gen.signal_classes(case['sig']))
     rec.label('mids:' + mode, 'first:%s' % case['first'], 'tail:%d' % case['tail'])
     verify(n, list(map(int, peaks)), list(map(int, troughs)), R, D, rec, note='(pipeline)', variant=case.get('variant', 0))
@@ -190,7 +196,7 @@ def strat_pipeline(draw, tier):
     sig = draw(gen.st_signal(band, n, tie_rich=draw(st.booleans())))
     return {'fs': fs, 'f_range': [f_lo, f_hi], 'sig': sig, 'fk': fk, 'boundary': draw(st.sampled_from([0, 0, 1, 2, 5])),
             'first': draw(st.sampled_from(['peak', 'trough', None])), 'tail': draw(st.sampled_from([0, 0, 1, 1, 2, 3, 50])),
-            'mids': draw(st.sampled_from(['both', 'both', 'none', 'rises', 'decays'])), 'variant': draw(st.integers(0, 10))}
+            'mids': draw(st.sampled_from(['both', 'both', 'none', 'rises', 'decays', 'some'])), 'variant': draw(st.integers(0, 10))}
 
 
 def decode(fdp):
